@@ -85,7 +85,7 @@ def _run_job(job):
                    for (lab, ok, det) in out]
         return {'job': job, 'results': results, 'wall': time.time() - t0, 'exec_s': 0.0, 'stats': dict(ex.stats),
                 'dstats': {'solver_s': 0.0, 'queries': 0, 'pair_queries': 0}, 'funcs': sorted(ex.funcs_used), 'notes': [],
-                'ninputs': 0, 'effects': [], 'smt2': [], 'dead': False}
+                'ninputs': sum(len(v) if isinstance(v, list) else 1 for k, v in ex.inputs), 'effects': [], 'smt2': [], 'dead': False}
     fn = prog.funcs[pkg + '.' + job['harness']]
     stubs.prepare(ex, st, opts)
     s2, _ = ex.call_fn(fn, list(job['params']), st)
